@@ -334,6 +334,31 @@ func TestC18(t *testing.T) {
 					return
 				}
 			}
+			// file names whose murmur3 hashes share 56 and 60 bits: the sharded result needs its deepest levels
+			crafted := 0
+			for _, shared := range []int{56, 60} {
+				for tries := 0; tries < 40 && crafted < 6; tries++ {
+					ok := true
+					names := gen.SharedPrefixNames(c.Rand(), 3, shared)
+					for _, nm := range names {
+						if strings.ContainsAny(nm, "/\x00") {
+							ok = false
+						}
+					}
+					if !ok {
+						continue
+					}
+					for _, nm := range names {
+						if err := os.WriteFile(filepath.Join(root, nm), []byte(nm), 0o644); err != nil {
+							c.Harness("fixture: %v", err)
+							return
+						}
+						crafted++
+					}
+					break
+				}
+			}
+			c.Count("crafted_deep_names", int64(crafted))
 			st := store.New()
 			l, _, err := builder.BuildUnixFSRecursive(root, st.LinkSystem(false))
 			if err != nil {
